@@ -206,8 +206,8 @@ func (ev *cmpEval) Call(fn *ssa.Function, args []aval, bind []aval) aval {
 				case token.MUL:
 					p, ok := a.(aPtr)
 					if !ok {
-						if _, isOp := a.(aOpaque); isOp {
-							env[x] = aOpaque{"load of opaque"}
+						if op, isOp := a.(aOpaque); isOp {
+							env[x] = aOpaque{"*" + op.what}
 							continue
 						}
 						leave("%s: load through non-pointer %T at %s", ev.c.FuncName(fn), a, ev.c.Pos(x.Pos()))
@@ -244,8 +244,12 @@ func (ev *cmpEval) Call(fn *ssa.Function, args []aval, bind []aval) aval {
 							continue
 						}
 					}
-					if _, isOp := get(x.X).(aOpaque); isOp {
-						env[x] = aOpaque{"field of opaque"}
+					if op, isOp := get(x.X).(aOpaque); isOp {
+						fname := "?"
+						if f := structField(x.X.Type(), x.Field); f != nil {
+							fname = f.Name()
+						}
+						env[x] = aOpaque{op.what + "." + fname}
 						continue
 					}
 					leave("%s: field address of non-struct pointer at %s", ev.c.FuncName(fn), ev.c.Pos(x.Pos()))
@@ -559,10 +563,16 @@ func (ev *cmpEval) call(fn *ssa.Function, x *ssa.Call, get func(ssa.Value) aval)
 			}
 			return best
 		}
+		if h, ok := ev.uninterp["builtin."+b.Name()]; ok {
+			return h(ev, args)
+		}
 		leave("%s: builtin %s outside the fragment", ev.c.FuncName(fn), b.Name())
 	}
 	if cal := cc.StaticCallee(); cal != nil {
 		name := ev.c.FuncName(cal)
+		if cal.Origin() != nil {
+			name = ev.c.FuncName(cal.Origin())
+		}
 		if h, ok := ev.uninterp[name]; ok {
 			return h(ev, args)
 		}
